@@ -42,14 +42,19 @@ VIEW = ["write", "reset", "swap", "iter", "next", "walk", "vwalk", "vmuls"]
 # a second vector with its own history is appended (sparse of the same / another element type, or dense)
 APPEND2 = ["write", "swap", "permute", "reverse", "sort", "reset", "walk", "new2", "appendo"]
 APPEND2L = ["write", "swap", "permute", "walk", "new2", "appendo"]
+# nested views (slice of slice, transposed ...): reads, iteration, writes through the inner view
+NEST = ["write", "swap", "vwalk", "vwrite"]
+# vectors of length 0 and matrices with zero rows / zero columns
+EMPTY = ["reset", "walk", "iter", "jwalk", "vmuls", "vadds", "vsubself", "sort", "reverse", "permute", "vaddv", "set"]
 
 
 def opset(ops):
     return "{" + ", ".join('"%s"' % o for o in ops) + "}"
 
 
-def K(N0, MaxN, NIter, MaxObj, WMax, ops, Cols=0):
-    return dict(N0=N0, MaxN=MaxN, NIter=NIter, MaxObj=MaxObj, WMax=WMax, ops=ops, Cols=Cols)
+def K(N0, MaxN, NIter, MaxObj, WMax, ops, Cols=0, ViewDepth=1, ViewT=0):
+    return dict(N0=N0, MaxN=MaxN, NIter=NIter, MaxObj=MaxObj, WMax=WMax, ops=ops, Cols=Cols, ViewDepth=ViewDepth,
+                ViewT=ViewT)
 
 
 PLAN = {
@@ -58,6 +63,7 @@ PLAN = {
         emit=[("all1", K(3, 3, 1, 1, 1, ALL)), ("it2", K(3, 3, 2, 1, 1, ITER)),
               ("share2", K(2, 2, 1, 2, 1, [o for o in SHARE if o != "permute"])),
               ("view4", K(4, 4, 1, 1, 1, ["write", "reset", "swap", "walk", "vwalk"], Cols=2)),
+              ("nest4", K(4, 4, 1, 1, 1, NEST, Cols=2, ViewDepth=2, ViewT=1)), ("empty0", K(0, 0, 1, 1, 1, EMPTY)),
               ("app2a", K(1, 3, 1, 2, 1, APPEND2)), ("app2d", K(2, 3, 1, 2, 1, APPEND2L))],
         dense=["all1"],
         # exhaustive refinement check only
@@ -70,10 +76,12 @@ PLAN = {
         emit=[("all1", K(3, 3, 1, 1, 3, ALL)), ("it2", K(3, 3, 2, 1, 1, CORE)), ("grow", K(2, 4, 1, 1, 1, CORE)),
               ("share2", K(2, 2, 1, 2, 1, SHARE)), ("four2", K(4, 4, 2, 1, 1, ITER)),
               ("view3", K(3, 3, 1, 1, 1, VIEW, Cols=3)), ("view4", K(4, 4, 1, 1, 1, VIEW, Cols=2)),
-              ("view6", K(6, 6, 1, 1, 1, ["write", "swap", "walk", "vwalk"], Cols=3)),
+              ("view3n", K(3, 3, 1, 1, 1, NEST, Cols=3, ViewDepth=2, ViewT=1)),
+              ("nest4", K(4, 4, 1, 1, 1, NEST, Cols=2, ViewDepth=3, ViewT=1)), ("empty0", K(0, 0, 1, 1, 1, EMPTY)),
               ("app2c", K(2, 4, 1, 2, 1, APPEND2L)), ("app2", K(2, 4, 1, 2, 1, APPEND2 + ["iter", "next"]))],
         dense=["all1"],
-        check=[("it2grow", K(3, 4, 2, 1, 1, CORE)), ("share3", K(3, 3, 1, 2, 1, SHARE))],
+        check=[("it2grow", K(3, 4, 2, 1, 1, CORE)), ("share3", K(3, 3, 1, 2, 1, SHARE)),
+               ("view6", K(6, 6, 1, 1, 1, NEST, Cols=3, ViewDepth=1, ViewT=1))],
         sim=[("sim", K(4, 6, 2, 2, 2, ALL), 400, 40), ("simit", K(5, 5, 2, 1, 2, NOSLICE), 400, 50),
              ("simshare", K(4, 4, 2, 2, 2, [o for o in ALL if o != "append"]), 400, 40)],
         record=(12, 300, 16), workers=8),
@@ -85,12 +93,13 @@ OP_EVENTS = {"append": ["appends", "appendv"], "slice": ["slice"]}
 
 def consts_of(k, emit, emit_at=0):
     return {"N0": str(k["N0"]), "MaxN": str(k["MaxN"]), "NIter": str(k["NIter"]), "MaxObj": str(k["MaxObj"]),
-            "WMax": str(k["WMax"]), "Cols": str(k.get("Cols", 0)), "Ops": opset(k["ops"]), "Emit": "TRUE" if emit else "FALSE",
+            "WMax": str(k["WMax"]), "Cols": str(k.get("Cols", 0)), "ViewDepth": str(k.get("ViewDepth", 1)),
+            "ViewT": str(k.get("ViewT", 0)), "Ops": opset(k["ops"]), "Emit": "TRUE" if emit else "FALSE",
             "EmitAt": str(emit_at), "SwapBug": "FALSE", "StaleBug": "FALSE", "SliceBug": "FALSE"}
 
 
 def bounds_of(k):
-    return {a: k[a] for a in ("N0", "MaxN", "NIter", "MaxObj", "WMax", "Cols")}
+    return {a: k[a] for a in ("N0", "MaxN", "NIter", "MaxObj", "WMax", "Cols", "ViewDepth", "ViewT")}
 
 
 def tlc(ctx, *a, **kw):
@@ -397,7 +406,7 @@ def replay(ctx, path):
 MANIFEST = {
     "engine": "sparsevec",
     "spec": "spec/SparseVector.tla",
-    "engine_text": "SparseVecContract.tla (contract: dense model, iterator positions, must/taint sharing of a slice), "
+    "engine_text": "SparseMatrixView.tla (views of the matrix over the vector), SparseVecContract.tla (contract: dense model, iterator positions, must/taint sharing of a slice), "
                    "SparseVector.tla (mechanism transcribed from vector_sparse_template.in: value map, index key set, "
                    "skip(), AT, Swap, Permute, Sort, ReverseOrder, SLICE, APPEND, joint iteration, arithmetic; product "
                    "with the contract), SparseVectorTrace.tla (trace validation); Go driver harness/cmd/sparsevec",
@@ -413,7 +422,9 @@ MANIFEST = {
             "non-zero cell indexed, keys in range), and after the last call all read accessors, live iterator "
             "positions and continuations, a fresh iteration and String(); longer histories over length 4-6 come from "
             "TLC simulation; a second vector with its own history (same type, another sparse element type, dense) is "
-            "appended with AppendVector, and column/row-sliced views of sparse matrices are iterated (Iterator/"
+            "appended with AppendVector, and views of sparse matrices (words of Slice/T steps up to depth 3, empty "
+            "ranges, 0-row/0-column matrices; SparseMatrixView.tla: index-map composition vs header arithmetic) are "
+            "written through and iterated (Iterator/"
             "IteratorFrom/ConstIterator) and read while the parent is mutated by zero writes, Swap and Reset; "
             "seeded random histories of 300 operations over length 16 for every element type (vectors "
             "and 4x4 matrices incl. SwapRows/SwapColumns) recorded from the real code are accepted by the contract's "
